@@ -225,7 +225,7 @@ class C06(Check):
                 continue
             if ev["client"] in ("A", "A2"):
                 f = self.evaluate_event(plan, result, ev)
-                v.unspecified += f.unspecified
+                v.absorb_unspecified(f)
                 v.rules_checked += f.checked
                 opt = set(t["id"] for t in spec["tasks"] if t.get("optional"))
                 for it in f.items:
